@@ -7,7 +7,7 @@ import Mathlib.Tactic.Ring
 import Mathlib.Tactic.FieldSimp
 import Mathlib.Algebra.Order.Field.Power
 import Mathlib.Data.Rat.Cast.Order
-import RigModel.Model.C16
+import RigModel.Lemmas.C16Rne
 set_option linter.unusedSimpArgs false
 set_option linter.unusedVariables false
 
@@ -166,9 +166,6 @@ theorem magLt_iff (m k : Int) (b : Nat) :
     rw [habs, pow_add, ← zpow_natCast (2 : ℚ) (-k).toNat, Int.toNat_of_nonneg hk', zpow_neg, zpow_natCast]
     have hp : (0 : ℚ) < (2 : ℚ) ^ k := by positivity
     rw [← div_eq_mul_inv, lt_div_iff₀ hp]
-
-theorem rne_zero (k : Int) : rne k 0 = k := by
-  unfold rne; simp
 
 theorem round53_small (k : Int) (h : k.natAbs < 2 ^ 53) : round53 k = ⟨k, 0⟩ := by
   unfold round53
@@ -555,16 +552,21 @@ structure FixOk (fmt : Fmt) : Prop where
   bits1 : 1 ≤ fmt.bits
   frac0 : 0 ≤ fmt.frac
   fracLe : (if fmt.signed then 1 else 0) + fmt.frac ≤ fmt.bits
-  bits64 : fmt.bits ≤ 64
+  bitsLe : fmt.bits < 1024 + (if fmt.signed then 1 else 0)
 
 def nInt (fmt : Fmt) : Nat := if fmt.signed then fmt.bits - 1 else fmt.bits
 
 /-- the float bound `((1 << n_int) - 1)` converted to a double: never below the integer, at most
 one above, exact up to 53 bits -/
-theorem bound_facts : ∀ n, n < 65 →
+theorem bound_facts (n : Nat) :
     0 ≤ (round53 (2 ^ n - 1)).e ∧ 2 ^ n - 1 ≤ (round53 (2 ^ n - 1)).intVal ∧
     (round53 (2 ^ n - 1)).intVal ≤ 2 ^ n ∧ (n ≤ 53 → (round53 (2 ^ n - 1)).intVal = 2 ^ n - 1) := by
-  decide +kernel
+  have hv : (round53 (2 ^ n - 1)).intVal = round53Val (2 ^ n - 1) := rfl
+  rw [hv, round53Val_pow_pred, round53_e]
+  refine ⟨by positivity, ?_, ?_, ?_⟩
+  · split <;> omega
+  · split <;> omega
+  · intro h; rw [if_pos h]
 
 def shift (d : Dy) (f : Int) : Dy := ⟨d.m, d.e + f⟩
 
@@ -611,8 +613,7 @@ theorem fix_core (fmt : Fmt) (v : Dy) (h : FixOk fmt) :
       max (min r.intVal (truncScaled v.m (v.e + fmt.frac))) fmt.minV ∧
     (c.m < 0 → truncScaled c.m (c.e + fmt.frac) ≤ 0) ∧ (0 ≤ c.m → 0 ≤ truncScaled c.m (c.e + fmt.frac)) := by
   intro lo r hi c
-  have hn : nInt fmt < 65 := by have := h.bits64; unfold nInt; split <;> omega
-  obtain ⟨f1, f2, f3, f4⟩ := bound_facts (nInt fmt) hn
+  obtain ⟨f1, f2, f3, f4⟩ := bound_facts (nInt fmt)
   have hr : r = round53 (2 ^ nInt fmt - 1) := rfl
   rw [← hr] at f1 f2 f3 f4
   have hfr := h.frac0
@@ -672,7 +673,8 @@ theorem validate_ok (fmt : Fmt) (h : FixOk fmt) :
   have a : ¬ (fmt.bits < 1) := by have := h.bits1; omega
   have b : ¬ ((if fmt.signed then (1 : Int) else 0) + fmt.frac > fmt.bits ∨ fmt.frac < 0) := by
     have := h.fracLe; have := h.frac0; omega
-  have c : ¬ (1000 < fmt.bits) := by have := h.bits64; omega
+  have c : ¬ (1024 ≤ (if fmt.signed then fmt.bits - 1 else fmt.bits)) := by
+    have := h.bitsLe; split at this <;> simp_all <;> omega
   unfold validate nInt
   simp only [a, b, c, if_false]
 
@@ -686,8 +688,7 @@ theorem fix_closed (rep : Bool) (fmt : Fmt) (v : Dy) (h : FixOk fmt) :
   have hcore := fix_core fmt v h
   dsimp only at hcore
   obtain ⟨c1, c2, c3⟩ := hcore
-  have hn : nInt fmt < 65 := by have := h.bits64; unfold nInt; split <;> omega
-  obtain ⟨f1, f2, f3, f4⟩ := bound_facts (nInt fmt) hn
+  obtain ⟨f1, f2, f3, f4⟩ := bound_facts (nInt fmt)
   obtain ⟨e1, e2⟩ := maxV_eq fmt h.bits1
   have hm := minV_nonpos fmt
   have hM := maxV_nonneg fmt
@@ -735,7 +736,8 @@ theorem fix_closed (rep : Bool) (fmt : Fmt) (v : Dy) (h : FixOk fmt) :
 theorem FixOk.fmtOk {fmt : Fmt} (h : FixOk fmt) : fmt.Ok := by
   refine ⟨?_, ?_⟩
   · intro ⟨_, h0⟩; have := h.bits1; omega
-  · have hh := h.fracLe; have := h.bits64; split at hh <;> omega
+  · have hh := h.fracLe; have hb := h.bitsLe
+    cases hs : fmt.signed <;> simp [hs] at hh hb <;> omega
 
 /-- the exact scaled value `v * 2^n_frac` as a rational number -/
 def scaledRat (fmt : Fmt) (v : Dy) : ℚ := v.toRat * (2 : ℚ) ^ fmt.frac
